@@ -178,6 +178,7 @@ func (a *Allocator) ForeachRequest(req *Request, fn func(*Request) bool) {
 func (a *Allocator) GetOffer(req *Request) (*Offer, error) {
 	log.Debug("get offer for %s", req)
 	defer a.validateState("GetOffer")
+	defer a.cleanupUnusedZones()
 
 	err := a.allocate(req)
 	if err != nil {
@@ -233,6 +234,7 @@ func (a *Allocator) Realloc(id string, affinity NodeMask, types TypeMask) (NodeM
 	}
 
 	defer a.validateState("Realloc")
+	defer a.cleanupUnusedZones()
 
 	zone, updates, err := a.realloc(req, affinity, types)
 	if err == nil {
